@@ -96,6 +96,10 @@ func generate(rng *rand.Rand, prop, tier string) *Scenario {
 			ps.RDMA = true
 		}
 		ps.Existing = npre > 0 && rng.IntN(3) == 0
+		if ps.Existing && c.Stack == "dual" && rng.IntN(3) == 0 {
+			// a node switched from one family to dual stack: the pod holds one family only
+			ps.Partial = oneOfS(rng, "v4", "v4", "v6")
+		}
 		c.Pods = append(c.Pods, ps)
 	}
 	sc.Strict = rng.IntN(4) == 0
@@ -150,3 +154,5 @@ func generate(rng *rand.Rand, prop, tier string) *Scenario {
 	sc.SettleS = oneOf(rng, 900, 1500, 2400)
 	return sc
 }
+
+func oneOfS(rng *rand.Rand, xs ...string) string { return xs[rng.IntN(len(xs))] }
